@@ -535,6 +535,8 @@ func (g *Gen) inlineBody(st *State, f *ssa.Function, args []Val) *Val {
 	sub.reset()
 	sub.Defs = g.Defs
 	sub.defSeen = g.defSeen
+	sub.defBlk = g.defBlk
+	sub.tagBlock = g.effBlock()
 	sub.strLits = g.strLits
 	sub.quiet = true
 	sub.pass = g.pass
